@@ -9,4 +9,5 @@ mkdir -p "$HERE/build" "$HERE/evidence" "$HERE/replays"
 cd "$HERE/harness"
 cp "${VERIF_REPO:-/repo}/go.sum" go.sum
 go build -tags verif -overlay "$HERE/build/overlay.json" -o "$HERE/build/vcheck" ./cmd/vcheck
+go build -race -tags verif -overlay "$HERE/build/overlay.json" -o "$HERE/build/vrace" ./cmd/vrace
 echo setup ok
